@@ -19,7 +19,7 @@ from sim.terms import EX, XSD, T, key, skey, u
 
 ID = "C20"
 LEVEL = "fault_enumeration"
-TIERS = {"quick": {"runs": 2400, "wall_cap": 600}, "thorough": {"runs": 40000, "wall_cap": 3300}}
+TIERS = {"quick": {"runs": 3200, "wall_cap": 600}, "thorough": {"runs": 40000, "wall_cap": 3300}}
 RULE = (
     "each evaluation is one seeded history (<=30 quick / <=50 thorough events) of a client driving SPARQLUpdateStore (autocommit on/off x "
     "dirty_reads on/off x GET/POST/POST_FORM x XML/JSON results x context_aware on/off) through Graph and ConjunctiveGraph handles: add, addN over "
@@ -62,6 +62,10 @@ LITS = [
     ["l", "<&>", None, None],
     ["l", "cr\rhere", None, None],
     ["l", "crlf\r\nline\r\nend", None, None],
+    ["l", " padded ", None, None],
+    ["l", "a \" } b { 'c", None, None],
+    ["l", "\tindented and ending in a newline\n", None, None],
+    ["l", " ", "en", None],
     ["l", "multi\nline ending in backslash-quote \\\"", None, None],
     ["l", "back\\slash t\\tab n\\new", None, None],
     ["l", "a small graph here", None, None],
@@ -440,7 +444,11 @@ def _execute(trace, ctx):
         """a read: the client may flush its queue first; the answer comes from the endpoint dataset at that moment"""
         must_flush = read_flush()
         had = len(pending)
+        n_app0 = len(ep.applied_log)
         got, err = transact(fn)
+        if not cfg["autocommit"] and cfg["dirty_reads"]:
+            # dirty reads allowed: a read is answered from what the endpoint holds and sends none of the queued edits
+            ctx.check(len(ep.applied_log) == n_app0, "C20.dirty-read-flushed", lambda: f"{where}: with dirty_reads on, the read sent {len(ep.applied_log) - n_app0} update request(s) ({had} edit(s) were queued) - they are visible before commit() and rollback() can no longer discard them", opk=op["k"])
         if err is not None:
             if not transport_fault():
                 ctx.deviation("C20.read-raised", f"{where} raised {type(err).__name__}: {err}", opk=op["k"], fmt=cfg["format"], method=cfg["method"])
@@ -505,6 +513,10 @@ def _execute(trace, ctx):
             from sim.sparqlref import r_term
 
             s_, p_, o_ = (r_term(x) for x in t)
+            if t[2][0] == "l" and '""' not in t[2][1] and not t[2][1].endswith('"') and op["uid"] % 2 and not (len(t[2]) > 3 and t[2][3]) and not (len(t[2]) > 2 and t[2][2]):
+                # the literal spelled as a long string: quotes, braces and line breaks stand in it as they are
+                o_ = '"""' + t[2][1].replace("\\", "\\\\") + '"""'
+                ctx.probe("update-text-with-long-string")
             upd_kwargs = {}
             if what == "insert-data":
                 text = f"INSERT DATA {{ {s_} {p_} {o_} . }}"
